@@ -5,7 +5,7 @@ from facts import norm, call_name, short, subnodes, lit_value, field_reads, peel
 from prov import Prov, has_field, has_call
 from mirq import MirQ
 from emit import emission
-from templates import enclosing_contexts
+from templates import enclosing_contexts, _contains as templates_contains
 
 SW = "sourcemap_writer::source_writer::SourceWriter"
 MW = "sourcemap_writer::source_writer::mapping_writer::MappingWriter"
@@ -257,6 +257,42 @@ def r06e(P, R):
             R.check("R06-e", "index-table:operation:%d" % j, ok, "the operation file -> sources[schema_len] (first slot after the schema files)",
                     "the operation file being generated is mapped to `%s`; `sources` lists the schema files followed by this file, so its "
                     "slot is schema_len()" % (v.get("name") or call_name(v) or v.get("k")), loc=rg.loc())
+    # a FileMap is never updated in place (a slot set for one output would stay set for the next), and the map used inside the
+    # per-operation loop is built inside that loop
+    FM = "nitrogql_cli::generate::FileMap"
+    muts = []
+    for f in P.fns.values():
+        if not f.path.startswith("nitrogql_cli::"):
+            continue
+        for x in f.walk():
+            if x.get("k") in ("Assign", "AssignOp"):
+                base = x["l"]
+                while base.get("k") in ("Index", "Unary", "Field") and not (base.get("k") == "Field" and norm(base.get("adt", "")) == FM):
+                    base = base["e"]
+                if base.get("k") == "Field" and norm(base.get("adt", "")) == FM:
+                    muts.append("%s:%s" % (short(f.path), base["field"]))
+            elif x.get("k") == "MethodCall" and str(x["recv"].get("t", "")).startswith("&mut") and any(
+                    y.get("k") == "Field" and norm(y.get("adt", "")) == FM for y in subnodes(x["recv"])):
+                muts.append("%s:%s()" % (short(f.path), x["method"]))
+    R.check("R06-e", "filemap-immutable", not muts, "no FileMap field is assigned or mutably borrowed after construction",
+            "a FileMap is modified in place (%s): entries set for one generated file leak into the source maps of the following ones "
+            "(stale `sources` entries; indices resolve to an earlier operation file)" % muts, loc=rg.loc())
+    nodes = rg.nodes()
+    n_loop_uses = 0
+    for ci, (c, _) in enumerate(nodes):
+        if not (c.get("k") == "Call" and (call_name(c) or "").endswith("generate::write_file_and_sourcemap")):
+            continue
+        loops = [l for l in enclosing_contexts(rg, ci) if l[0] == "loop"]
+        if not loops:
+            continue
+        n_loop_uses += 1
+        fm_locals = {y["local"] for a_ in c["args"] for y in subnodes(a_) if y.get("k") == "Path" and "local" in y and "generate::FileMap" in norm(str(y.get("t", "")))}
+        lets = [(i, n) for i, (n, _) in enumerate(nodes) if n.get("k") == "Let" and any(b.get("k") == "Binding" and b["local"] in fm_locals for b in subnodes(n["pat"]))]
+        inner = loops[0][1]
+        ok = bool(lets) and all(templates_contains(inner, n) for _, n in lets)
+        R.check("R06-e", "filemap-per-output", ok, "the FileMap of a per-operation output is built in the same loop iteration",
+                "the FileMap used for the per-operation source maps is built outside the operation loop and shared between iterations", loc=rg.loc())
+    R.floor("R06-e", "source-mapped outputs written in a loop", n_loop_uses, 1)
     # write_file_and_sourcemap: sources from file_map (filtered by sentinel, store order), map json gets the output path
     w = P.fn("nitrogql_cli::generate::write_file_and_sourcemap")
     pvw = Prov(w)
@@ -325,6 +361,49 @@ def r06f(P, R):
     need = {"16", "15", "32", "31", "4", "5", "1", "0"}
     R.check("R06-f", "vlq-constants", need <= set(ints), "VLQ uses 4+5-bit groups, sign in bit 0, continuation bit 32",
             "base64_vlq constants are %s (expected to include %s)" % (ints, sorted(need)), loc=b.loc())
+    # continuation digits: inside the digit loop, the 5-bit group is read before the shift, and the continuation bit is set exactly
+    # when something remains after this group
+    nodes = b.nodes()
+    loops = [i for i, (x, _) in enumerate(nodes) if x.get("k") == "Loop"]
+    R.floor("R06-f", "VLQ digit loop", len(loops), 1)
+    for li in loops:
+        loop = nodes[li][0]
+        inside = [(i, x) for i, (x, _) in enumerate(nodes) if i > li and templates_contains(loop, x)]
+        shifts = [(i, x) for i, x in inside if x.get("k") == "AssignOp" and x.get("op") == ">>=" and lit_value(x["r"]) in (5, "5")]
+        conts = [(i, x) for i, x in inside if x.get("k") == "If" and not x.get("x")
+                 and {str(lit_value(y)) for y in subnodes(x.get("then")) + subnodes(x.get("else") or {}) if y.get("k") == "Lit"} >= {"32", "0"}]
+        masks = [(i, x) for i, x in inside if x.get("k") == "Binary" and x.get("op") == "&" and str(lit_value(x["r"])) == "31"]
+        if len(shifts) != 1 or len(conts) != 1 or len(masks) != 1:
+            R.undecided("R06-f", "vlq-continuation", "digit loop not in a recognised shape (shifts=%d, continuation tests=%d, masks=%d)" % (len(shifts), len(conts), len(masks)), loc=b.loc())
+            continue
+        (si, sh), (ci, co), (mi, ma) = shifts[0], conts[0], masks[0]
+        var = sh["l"].get("local")
+        cond = co["cond"]
+        while cond.get("k") in ("DropTemps", "Paren"):
+            cond = cond["e"]
+        form = None
+        if cond.get("k") == "Binary":
+            lhs, rhs, op = cond["l"], cond["r"], cond.get("op")
+            n = lit_value(rhs)
+            n = int(n) if n is not None and str(n).isdigit() else None
+            if lhs.get("k") == "Path" and lhs.get("local") == var and n is not None:
+                form = ("var", op, n)
+            elif lhs.get("k") == "Binary" and lhs.get("op") == ">>" and lhs["l"].get("local") == var and str(lit_value(lhs["r"])) == "5" and n is not None:
+                form = ("shifted", op, n)
+        after = ci > si
+        if form is None:
+            R.undecided("R06-f", "vlq-continuation", "continuation test is not a comparison of the remaining value with a constant", loc=b.loc())
+        else:
+            remainder_positive = {("var", ">", 0), ("var", "!=", 0), ("var", ">=", 1)}
+            ok = (form in remainder_positive) if (after or form[0] == "shifted") else form in {("var", ">", 31), ("var", ">=", 32)}
+            if form[0] == "shifted" and after:
+                ok = False
+            R.check("R06-f", "vlq-continuation", ok, "continuation bit <=> a non-zero remainder follows this 5-bit group",
+                    "the continuation bit of a VLQ digit is decided by `%s %s %d` evaluated %s the 5-bit shift: for some values a digit is "
+                    "written without its continuation bit although another digit follows (or vice versa), so the field decodes as two"
+                    % ("value" if form[0] == "var" else "value >> 5", form[1], form[2], "after" if after else "before"), loc=b.loc())
+        R.check("R06-f", "vlq-group-before-shift", mi < si, "the digit's 5 bits are read before the value is shifted",
+                "the 5-bit group is read after the shift: the digit carries the next group's bits", loc=b.loc())
     tab = [n for n in P.fns.values() if n.path.endswith("base64_vlq::BASE64_CHARS")]
     if tab:
         chars = "".join(x.get("v") for x in tab[0].walk() if x.get("k") == "Lit" and x.get("lk") == "char")
